@@ -273,6 +273,7 @@ fn classify(case: &Case, s: &Setup, expected: usize, info: &mut CaseInfo) {
     info.class_if(n > 0 && expected == n, "all-hit");
     info.class_if(case.mat.rows.iter().any(|r| r[4].0.is_finite()), "finite-wildcard-column");
     info.class_if(s.idx.len() >= 8000, "L>=8000");
+    info.class_if(s.rows > 65536, "more-than-65536-rows");
     let wrap = s.striped.wrap();
     if let Some(b) = case.block.resolve(s.rows) {
         let k = (s.rows + b - 1) / b.max(1);
@@ -282,6 +283,30 @@ fn classify(case: &Case, s: &Setup, expected: usize, info: &mut CaseInfo) {
         info.class("default-block-size");
         info.class_if(256 < s.rows, ">=2-blocks");
     }
+}
+
+
+/// Sequences of more than 65536 striped rows (16-bit row / block counters): a few fixed cases.
+fn long_cases() -> Vec<Case> {
+    let rows: Vec<Vec<Fl>> = (0..5usize).map(|i| (0..5usize).map(|j| Fl(if j == 4 { -9.0 } else { (((i * 7 + j * 3) % 11) as f32) - 5.0 })).collect()).collect();
+    let mut out = Vec::new();
+    for (block, thr, consumed) in [(Block::Default, ThrSpec::TopK(2), 1usize), (Block::Fixed(65536), ThrSpec::TopK(40), 3), (Block::Fixed(1000), ThrSpec::TopK(0), 0), (Block::RowsPlus(-1), ThrSpec::TopK(5), 2)] {
+        out.push(Case {
+            seq: SeqSpec::Seeded { len: 32 * 65536 + 37, seed: 4242, wild_pct: 1 },
+            mat: MatSpec { rows: rows.clone(), bg: BgSpec::Uniform, regime: "small-int".into() },
+            embed: Embed::Consensus(32 * 65536 + 30),
+            extra_wrap: 0,
+            block,
+            thr,
+            arm: Arm::Avx2,
+            own_buffer: false,
+            consumed,
+            alt_blocks: vec![Block::Fixed(70000), Block::Default],
+            exact_alloc: false,
+            reconfig: Vec::new(),
+        });
+    }
+    out
 }
 
 // ---------------------------------------------------------------------------
@@ -303,6 +328,9 @@ impl Sub for Exhaust {
     }
     fn strategy(&self, tier: Tier) -> BoxedStrategy<Case> {
         case_strategy(tier, false)
+    }
+    fn sweep(&self, _tier: Tier) -> Vec<Case> {
+        long_cases()
     }
     fn check(&self, case: &Case, cx: &Cx) -> Verdict {
         if case.mat.m() == 0 {
@@ -482,6 +510,9 @@ impl Sub for Best {
     }
     fn strategy(&self, tier: Tier) -> BoxedStrategy<Case> {
         case_strategy(tier, true)
+    }
+    fn sweep(&self, _tier: Tier) -> Vec<Case> {
+        long_cases()
     }
     fn check(&self, case: &Case, cx: &Cx) -> Verdict {
         if case.mat.m() == 0 {
